@@ -20,7 +20,7 @@ CLAUSE_PROPS = {
     'NoNewTasksWhilePaused': ['C10'], 'PauseAck': ['C10'],
     'NoNewTasksAfterStop': ['C11'], 'StopAck': ['C11'], 'TreeCancelled': ['C11'],
     'AttemptBound': ['C08'], 'StopAtFirstSuccess': ['C08'], 'FinalIffLast': ['C08'], 'DelayRespected': ['C08'],
-    'WaitBeforeRespected': ['C08'], 'WaitAfterRespected': ['C08'], 'TimeoutJudged': ['C08'], 'FailOnApplied': ['C08'],
+    'WaitBeforeRespected': ['C08'], 'PauseBeforeRespected': ['C08'], 'WaitAfterRespected': ['C08'], 'TimeoutJudged': ['C08'], 'FailOnApplied': ['C08'],
     'ExpiredFailed': ['C20'], 'NeverExpireFresh': ['C20'], 'NoStuckTaskAtRest': ['C20', 'C01'],
     'RerunRestores': ['C12'], 'SkipApplied': ['C12'], 'RerunReexecutes': ['C12'], 'PartialRerunOnlyFailed': ['C12', 'C07'],
     'ParentMirrorsChild': ['C09'], 'RootAndNamespace': ['C09'],
